@@ -98,13 +98,27 @@ Proof.
   split; [reflexivity|]. split; [assumption|]. split; congruence.
 Qed.
 
-Lemma st_drain_pair a b ca cb : srel a b ->
-  let '(a', la, ca') := st_drain a ca in
-  let '(b', lb, cb') := st_drain b cb in
+Lemma firstn_In {A} k : forall (l : list A) x, In x (firstn k l) -> In x l.
+Proof.
+  induction k as [|k IH]; intros l x H; cbn [firstn] in H; [destruct H|]. destruct l as [|y l]; [destruct H|].
+  destruct H as [->|H]; [left; reflexivity | right; apply IH; assumption].
+Qed.
+
+Lemma firstn_nodup {A} k : forall (l : list A), NoDup l -> NoDup (firstn k l).
+Proof.
+  induction k as [|k IH]; intros l H; cbn [firstn]; [constructor|]. destruct l as [|x l]; [constructor|].
+  inversion H; subst. constructor; [|apply IH; assumption]. intros Hin. apply firstn_In in Hin. contradiction.
+Qed.
+
+Lemma st_drain_pair a b lim ca cb : srel a b ->
+  let '(a', la, ca') := st_drain a lim ca in
+  let '(b', lb, cb') := st_drain b lim cb in
   la = lb /\ srel a' b' /\ cx_stuck ca' = cx_stuck ca /\ cx_stuck cb' = cx_stuck cb.
 Proof.
-  intros H. unfold st_drain. rewrite <- (srel_mask a b H).
-  apply drain_ids_pair; [assumption | apply RawRefine_nodup|]. intros i Hi. apply RawRefine_in_elements. assumption.
+  intros H. unfold st_drain. cbv zeta. rewrite <- (srel_mask a b H).
+  apply drain_ids_pair; [assumption | |].
+  - destruct lim; [apply firstn_nodup|]; apply RawRefine_nodup.
+  - intros i Hi. apply RawRefine_in_elements. destruct lim; [apply firstn_In in Hi|]; assumption.
 Qed.
 
 Lemma cx_drop_stuck c t : cx_stuck (cx_drop c t) = cx_stuck c.
@@ -241,8 +255,8 @@ Proof.
   - pose proof (m_clear_pair a b ca cb H) as X.
     destruct (m_clear a ca) as [a' ca']. destruct (m_clear b cb) as [b' cb']. cbn [fst snd] in X.
     split; [reflexivity | exact X].
-  - pose proof (st_drain_pair a b ca cb H) as X.
-    destruct (st_drain a ca) as [[a' la] ca']. destruct (st_drain b cb) as [[b' lb] cb'].
+  - pose proof (st_drain_pair a b lim ca cb H) as X.
+    destruct (st_drain a lim ca) as [[a' la] ca']. destruct (st_drain b lim cb) as [[b' lb] cb'].
     destruct X as [-> X]. split; [apply wout_sim_refl | exact X].
   - pose proof (st_entry_pair a b av ent eo ca cb H) as X.
     destruct (st_entry a av ent eo ca) as [[a' ra] ca']. destruct (st_entry b av ent eo cb) as [[b' rb] cb'].
